@@ -235,6 +235,11 @@ Proof.
   - intros H; inv H; auto.
   - intros H; inv H; auto.
   - destruct (p_stack ps); intros H; inv H; auto.
+  - unfold set_origin. destruct (nth_error (b_items st) i) as [it|] eqn:En; [|intros H; inv H; auto].
+    intros H Hi.
+    assert (Hit : item_at st i = it) by (apply nth_error_nth; exact En).
+    assert (Hs : forall o, isig (with_origin it o) = isig (item_at st i)) by (intros o; rewrite Hit; reflexivity).
+    destruct r; inv H; try exact Hi. apply set_item_struct; [apply Hs | exact Hi].
 Qed.
 
 Theorem run_ops_inv_struct : forall ops ps st, Inv_struct st -> Inv_struct (bstate_of (run_ops ps st ops)).
